@@ -70,7 +70,7 @@ impl Decoder for ServerCodec {
                     bail!("not trojan protocol");
                 }
                 let key = src.split_to(56);
-                let key = hex::decode(unsafe { str::from_utf8_unchecked(&key) })?;
+                let key = hex::decode(str::from_utf8(&key)?)?;
                 if self.key != key[..self.key.len()] {
                     bail!("not a valid password")
                 }
